@@ -159,6 +159,7 @@ class Report:
                                     for r, l in sorted(per_rule.items())},
                 'samples': samples[:60],
                 'analysed': self.analysed,
+                'tree_form': getattr(self, 'tree_form', 'raw'),
                 'floors': self.floors,
                 'known_findings': [o.key() for o in listed],
                 'notes': self.notes,
